@@ -1,4 +1,6 @@
 import Props.C02
 import Props.C03
 import Props.C04
+import Props.C05
 import Props.C06
+import Props.C08
